@@ -4,5 +4,3 @@ func (c *ctx) loaderHistory() {}
 
 func (c *ctx) realClientVsModel()   {}
 func (c *ctx) realClientConn(i int) {}
-func (c *ctx) shutdown()            {}
-func (c *ctx) gauges()              {}
